@@ -22,6 +22,9 @@ int sm4_ctr_encrypt_finish(SM4_CTR_CTX *ctx, uint8_t *out, size_t *outlen) { *ou
 #ifndef N
 #define N 40
 #endif
+#ifndef TOTAL
+#define TOTAL (N + 32)
+#endif
 #ifndef AADLEN
 #define AADLEN 3
 #endif
@@ -50,6 +53,9 @@ static void stream_case(size_t total, size_t cut)       /* total = bytes offered
 	for (int i = 0; i < AADLEN; i++) CHECK(h_log[i] == aad[i], "AAD");
 	for (size_t i = 0; i < n; i++) CHECK(h_log[AADLEN + i] == all[i], "ciphertext bytes in order");
 	int match = 1; for (int i = 0; i < 32; i++) if (h_out[i] != all[n + i]) match = 0;
+#if TOTAL >= 32
+	if (ret == 1) V_COVER("ctr-hmac accept");
+#endif
 	CHECK((ret == 1) == match, "accept <=> all 32 tag bytes match");
 	CHECK(c_n == n, "exactly the ciphertext was decrypted");
 }
